@@ -355,6 +355,15 @@ Record b10 := mkb10 {
   ok10 : bool
 }.
 
+(* the guard just acquired is ended by a panic of its thread (possibly after accesses through it) *)
+Fixpoint hold_ends_in_panic (ops : list apiop) : bool :=
+  match ops with
+  | [] => false
+  | APanic :: _ => true
+  | (AGuardDrop | AGuardUnlock | AGuardForget) :: _ => false
+  | _ :: r => hold_ends_in_panic r
+  end.
+
 Definition cur_op10 (b : bscen) (s : b10) (t : tid) : option apiop := nth_error (nth t (bs_progs b) []) (calls10 s t).
 
 Definition step10 (b : bscen) (s : b10) (e : bev) : b10 :=
@@ -393,8 +402,7 @@ Definition step10 (b : bscen) (s : b10) (e : bev) : b10 :=
                             end in
                 (* a SHARED guard that its thread will end by a panic: PoisonRef::drop sets the flag before it releases, and
                    other readers can come in between — from here on what they see is left open *)
-                let ends_in_panic := match nth_error (nth t (bs_progs b) []) (S (calls10 s t)) with
-                                     | Some APanic => true | _ => false end in
+                let ends_in_panic := hold_ends_in_panic (skipn (S (calls10 s t)) (nth t (bs_progs b) [])) in
                 let ps := match m with
                           | Sh => if ends_in_panic then upd_all (pz s) (pids_of sc c) (pst_after_panic Sh) else pz s
                           | Ex => pz s
